@@ -10,7 +10,7 @@ from ..selftest import Mutant
 
 ID = "C16"
 TECHNIQUE = "effect whitelist on the tree parameter (K4), CFG ordering/guards in uncommit() (K1/K2), Rust-lite guard dominance in remove_tags (K10)"
-FLOOR = 12
+FLOOR = 16
 UC = "breezy/uncommit.py"
 BI = "breezy/builtins.py"
 RS = "src/uncommit.rs"
